@@ -26,8 +26,10 @@ TEXTS["C04"] = {
     "text": "The transition table is regenerated from transaction_manager.go on every run and the theorems are re-proved against it: no transition leaves SUCCESS/FAILURE/ROLLBACK "
             "(C04_table_no_exit_from_final, lifted to all events: C04_final_absorbing_step), every FSM step is a protocol edge (C04_step_is_protocol_edge), Report moves a one-to-one "
             "record only along the FSM and refuses receipts in final states (C04_report_moves_along_fsm, C04_report_refused_when_final), GetStatus returns the stored status. "
-            "History-level finality is decided by the monitor on the real node (protocol automaton written from the property text) and by the model correspondence; "
-            "the executor's direct status writes at timeout are covered by C06's theorems.",
+            "History level (Proofs/ExecRec.lean: only Begin writes a fresh record, only Report steps an existing one, nothing else touches tx-<id>): over ANY sequence of handled IBTPs the status of a record of an index-checked pair stays present and "
+            "moves only along steps of the state machine (C04_history_status_path), hence SUCCESS / FAILURE / ROLLBACK never change again (C04_history_final_stays); the counter hypothesis of both holds for every record the contract creates "
+            "(C04_created_record_is_bounded). The executor's direct status writes at timeout are outside that history (C06's theorems cover them per block); the monitor on the real node (protocol automaton written from the property text) and "
+            "the model correspondence decide whole block histories including timeouts.",
     "note": TB + " Extractor go/extract (go/packages + go/ast) is trusted to copy the literal table.",
     "technique": "Lean 4 table theorems (decide over the extracted FSM, lifted by lemma) + model correspondence + protocol monitor",
 }
